@@ -326,6 +326,38 @@ def run(chk):
         K.must_pass(chk, "C05.consume", f, feeds, K.via_with_calls(repo, clears), f"{q}: after the buffered bytes were fed to the parser the buffer is reassigned on every path (they are not fed twice)",
                     construct=pat, missing="self._message_tail = <new tail>")
 
+    # ---- C05.decline: an upgrade the handler did not accept is revoked completely ---------------------------------------------------
+    # The parser defers an upgrade until the request body has been read (_pending_upgrade). If the handler answers before that and the
+    # deferred upgrade later takes effect, the parser stops, the protocol buffers everything in _message_tail and nobody is left to read it.
+    hpf = repo.func(MOD, "HttpParser.feed_data")
+    su = repo.func(MOD, "HttpParser.set_upgraded")
+    deferred = set()
+    for a in ast.walk(hpf.node):
+        if isinstance(a, ast.Assign) and norm.raw(a.targets[0]) == "self._upgraded" and isinstance(a.value, ast.Constant) and a.value.value is True:
+            for l in PC.units(PC.pc(a, raw=True)):
+                if l.pos and l.text.startswith("self._") and l.text.replace("self.", "").isidentifier():
+                    deferred.add(l.text)
+    if not deferred:
+        chk.analysis_error("C05.decline: no deferred-upgrade state found in HttpParser.feed_data (anchor vanished)")
+    for attr in sorted(deferred):
+        resets = [x for x in ast.walk(su.node) if isinstance(x, ast.Assign) and norm.raw(x.targets[0]) == attr and (norm.raw(x.value) in ("False", "val") or (isinstance(x.value, ast.Constant) and not x.value.value))]
+        if resets:
+            chk.ok("C05.decline", resets[0], f"HttpParser.set_upgraded(False) also clears `{attr}`: a declined upgrade cannot take effect after the body was read")
+        else:
+            chk.violation("C05.decline", su, "self._upgraded = val", f"{attr} = False",
+                          f"set_upgraded(False) leaves `{attr}` set: the parser switches to upgraded mode when the request body completes, after the handler has already answered")
+    fr_ = repo.func(PROTO, "RequestHandler.finish_response")
+    revokes = [c for c, _b in K.exprs(fr_, "self._parser.set_upgraded(False)")]
+    free = [c for c in revokes if PC.has_lit(PC.pc(c), "self._upgraded", True) is None]
+    if free:
+        chk.ok("C05.decline", free[0], "finish_response(): the parser's upgrade is revoked whenever the handler finished without accepting it, also while it is still pending")
+    else:
+        chk.violation("C05.decline", revokes[0] if revokes else fr_, "self._parser.set_upgraded(False)", "not conditional on self._upgraded",
+                      "the upgrade is revoked only if it has already taken effect: `POST` + `Upgrade` + `Content-Length` answered before its body arrives leaves the deferred upgrade armed; once the body is in, every later request sits unanswered in _message_tail with no handler running")
+    # ---- C05.bodiless: no stray body bytes between two responses (shared with C04) ----
+    from rules import C04
+
+    C04.bodiless(chk, repo, rule="C05.bodiless")
     # ---- C05.err400 ------------------------------------------------------------------------------------------------------------
     C01.err400(chk, repo, folder, errs, rule="C05.err400")
     chk.extra["effects_stats"] = dict(eff.stats)
